@@ -32,6 +32,19 @@ CLAIMED = {
         "handling of LookupError is exercised only end-to-end (oracle). Open finding: 01:000001 hard-coded as unwanted.",
         "6 (C10)",
     ),
+    "C19": (
+        "Coq proof (invariants by induction over arbitrary message histories; prefix lemmas; refutations by computed witnesses) + correspondence on the real FaultLog + breadth-first history search",
+        "10 theorems in coq/props/C19.v about coq/model/M_Faultlog.v (= FaultLog._insert_into_map/_process_msg over an association-list "
+        "OrderedDict): for EVERY message history no entry is invented, the view never raises (map values = keys of the entry store), "
+        "indices are unique; read-through from an empty view and push-down on a gap-free view are proved (_partial); the full "
+        "no-duplicates / push-down / read-through statements are REFUTED with witnesses that are replayed on the implementation "
+        "(KNOWN_FINDINGS.json). Tie: _insert_into_map on random+reachable maps and whole histories of real 0418 messages through "
+        "the real class are compared with the model (maps incl. order, entry store); the oracle enumerates controller-consistent "
+        "histories breadth-first on the real function and classifies every violation by cause.",
+        "Trusted: Coq kernel, harness. Modelled not verified: timestamps as integers (string order within one century), the "
+        "controller simulator, get_faultlog's send loop (only its message processing is modelled). FAULTLOG_MAX_LOG_IDX is regenerated.",
+        "6 (C19)",
+    ),
 }
 
 NOT_YET = "not claimed yet: the Coq model and correspondence harness for this property are not built in this revision (planned in DESIGN.md section 6)"
